@@ -56,6 +56,7 @@ type FnCtx struct {
 	sortDeclText map[string][]string // persistent across passes: sort name -> declaration lines
 	sortDeclOrder []string
 	frameMode bool
+	modSpec   *FuncSpec
 	unfoldDepth int
 	modCache map[*ssa.Function]modResult
 	noDefine int
